@@ -9,10 +9,13 @@ import (
 	"bytes"
 	"context"
 	"flag"
+	"fmt"
 	"io"
 	"log"
 	"math/rand"
+	"os"
 	"reflect"
+	"runtime"
 	"sync"
 	"time"
 
@@ -30,7 +33,23 @@ func suiteRace(args []string) {
 	r := rand.New(rand.NewSource(*seed))
 	rep := &Report{Suite: "race", Seed: *seed, Distribution: map[string]int{}}
 	rep.Rule = "each evaluation is one round: a Server with handlers configured before Serve, 8 concurrent in-memory sessions x 5 requests, Shutdown at a random moment, in parallel with 8 goroutines encoding/decoding overlapping types and (every third round) 3 TLS clients, followed by 12 runs of Shutdown with an ended / ending context against 6 sessions that are closing at that moment; all rounds differ by their seed"
+	// a deadlock inside the library (a misused synchronisation primitive) must not hang the check: every round runs under a
+	// watchdog; when it fires, the goroutine dump is the replay
+	roundDone := make(chan struct{}, 1)
+	watchdog := func(what string) {
+		select {
+		case <-roundDone:
+		case <-time.After(90 * time.Second):
+			buf := make([]byte, 1<<20)
+			buf = buf[:runtime.Stack(buf, true)]
+			rep.Violations = append(rep.Violations, map[string]interface{}{"kind": "race-hang", "what": "the library stopped making progress (deadlock / misuse of a synchronisation primitive) during " + what,
+				"goroutines": firstN(string(buf), 12000)})
+			rep.emit()
+			os.Exit(0)
+		}
+	}
 	for round := 0; round < *rounds; round++ {
+		go watchdog(fmt.Sprintf("round %d: 8 sessions + parallel codec use + Shutdown", round))
 		cfg := sessionCfg{rt: true, wt: true, sa: "ok", ra: true, ops: []kmip.Enum{kmip.OPERATION_GET, kmip.OPERATION_CREATE}}
 		ss := newScriptedServer(cfg)
 		var wg sync.WaitGroup
@@ -100,14 +119,21 @@ func suiteRace(args []string) {
 		case <-time.After(3 * time.Second):
 			rep.Violations = append(rep.Violations, map[string]interface{}{"kind": "race-serve-stuck", "round": round})
 		}
+		roundDone <- struct{}{}
 		rep.Evaluations++
 		rep.Nontrivial++
 		rep.Distribution["rounds"]++
 		// Shutdown whose context ends (or has ended) while sessions are open and are closing at that very moment
+		go watchdog("Shutdown with an ending context against closing sessions")
 		for k := 0; k < 12; k++ {
 			raceShutdownExpiry(rand.New(rand.NewSource(r.Int63())), k)
 			rep.Distribution["shutdown-ctx-expiry"]++
 		}
+		roundDone <- struct{}{}
+		go watchdog("a batch in flight (slow user operation followed by the built-in Discover Versions) while Shutdown and a new connection arrive")
+		raceBatchInFlight()
+		roundDone <- struct{}{}
+		rep.Distribution["batch-in-flight"]++
 	}
 	rep.Samples = append(rep.Samples, map[string]interface{}{"round": "8 sessions x 5 requests + 8 codec goroutines + Shutdown at a random moment"})
 	rep.emit()
@@ -171,6 +197,52 @@ func raceShutdownExpiry(r *rand.Rand, k int) {
 	case <-served:
 	case <-time.After(2 * time.Second):
 	}
+}
+
+// raceBatchInFlight: one session is in the middle of a batch [slow user operation, built-in Discover Versions] while a new
+// connection is accepted and Shutdown is called: everything must still complete
+func raceBatchInFlight() {
+	srv := &kmip.Server{Log: log.New(io.Discard, "", 0)}
+	entered := make(chan struct{})
+	release := make(chan struct{})
+	srv.Handle(kmip.OPERATION_GET, func(ctx *kmip.RequestContext, item *kmip.RequestBatchItem) (interface{}, error) {
+		close(entered)
+		<-release
+		return kmip.GetResponse{UniqueIdentifier: "x"}, nil
+	})
+	lis := newMemListener()
+	init := make(chan struct{})
+	served := make(chan error, 1)
+	go func() { served <- srv.Serve(lis, init) }()
+	<-init
+	mc := newMemConn("batch")
+	lis.ch <- acceptResult{conn: mc}
+	req := kmip.Request{Header: kmip.RequestHeader{Version: kmip.ProtocolVersion{Major: 1, Minor: 4}, BatchCount: 2},
+		BatchItems: []kmip.RequestBatchItem{{Operation: kmip.OPERATION_GET, RequestPayload: kmip.GetRequest{UniqueIdentifier: "k"}},
+			{Operation: kmip.OPERATION_DISCOVER_VERSIONS, RequestPayload: kmip.DiscoverVersionsRequest{}}}}
+	_, b := implEncode(&req)
+	mc.peerSend(b)
+	<-entered
+	// a writer on the server's state arrives while the batch is in flight: a new connection, then Shutdown
+	mc2 := newMemConn("late")
+	select {
+	case lis.ch <- acceptResult{conn: mc2}:
+	case <-time.After(time.Second):
+	}
+	shDone := make(chan struct{})
+	go func() {
+		ctx, cancel := contextWithTimeout(20 * time.Second)
+		defer cancel()
+		srv.Shutdown(ctx)
+		close(shDone)
+	}()
+	time.Sleep(5 * time.Millisecond)
+	close(release)
+	mc.waitUntil(30*time.Second, func() bool { return len(splitMessages(mc.out)) >= 1 || mc.localClosed })
+	mc.peerClose()
+	mc2.peerClose()
+	<-shDone
+	<-served
 }
 
 func raceTLS() {
